@@ -1194,7 +1194,11 @@ impl<T: TypeConfig> RaftRoleState for LeaderState<T> {
                         "my({}) term < request one, now I will step down to Follower",
                         my_id
                     );
-                    //TODO: if there is a bug?  self.update_current_term(vote_request.term);
+                    // Adopt the new leader's term before announcing it: the BecomeFollower handler
+                    // notifies leader-change listeners with the node's current term, and with the
+                    // old term they were told "<new leader> leads <old term>" - a term that node
+                    // never led.
+                    self.update_current_term(cluste_conf_change_request.term);
                     self.send_become_follower_event(
                         Some(cluste_conf_change_request.id),
                         &internal_event_tx,
@@ -1231,7 +1235,11 @@ impl<T: TypeConfig> RaftRoleState for LeaderState<T> {
                         "my({}) term < request one, now I will step down to Follower",
                         my_id
                     );
-                    //TODO: if there is a bug?  self.update_current_term(vote_request.term);
+                    // Adopt the new leader's term before announcing it: the BecomeFollower handler
+                    // notifies leader-change listeners with the node's current term, and with the
+                    // old term they were told "<new leader> leads <old term>" - a term that node
+                    // never led.
+                    self.update_current_term(append_entries_request.term);
                     // Revoke lease immediately — window-period fix (see VoteRequest branch).
                     self.shared_state.lease.revoke();
                     self.send_become_follower_event(
